@@ -40,6 +40,8 @@ pub struct Triggers {
     /// declarations and nested try / calls inside finally blocks (E8, E9)
     pub e8: bool,
     pub e9: bool,
+    /// return from a finally block (E11 when an exception is in flight)
+    pub e11: bool,
     /// super used inside a nested function (S1)
     pub s1: bool,
 }
@@ -54,6 +56,7 @@ impl Triggers {
             e6: true,
             e8: true,
             e9: true,
+            e11: true,
             s1: true,
         }
     }
@@ -1351,7 +1354,11 @@ impl<'a> Gen<'a> {
                         return false;
                     }
                 }
-                TryPos::Finally => return false,
+                TryPos::Finally => {
+                    if !t.e11 {
+                        return false;
+                    }
+                }
             }
         }
         if finally_bodies > 1 && !t.e6 {
@@ -1565,6 +1572,15 @@ impl<'a> Gen<'a> {
                     2 => Stmt::expr(Expr::invoke(Expr::VecLit(vec![]), "pop", vec![])),
                     _ => Stmt::new(StmtKind::If(Expr::var("p"), vec![Stmt::new(StmtKind::Throw(Expr::var("p")))], None)),
                 };
+                // sometimes the block is left by a return instead (through the finally block): the
+                // captured variables must survive the finally block's own use of the stack
+                let returns = self.rd.chance(1, 3);
+                let thrower = if returns {
+                    self.label("closure_over_try_local_return");
+                    Stmt::new(StmtKind::Return(Some(Expr::var(keep))))
+                } else {
+                    thrower
+                };
                 let l1 = self.next_lambda_name();
                 let l2 = self.next_lambda_name();
                 let mut try_body = vec![
@@ -1598,7 +1614,17 @@ impl<'a> Gen<'a> {
                     Stmt::var("e2", Some(Expr::str("E"))),
                     Stmt::print(Expr::callv(keep, vec![])),
                 ];
-                let with_finally = self.rd.chance(1, 3);
+                let with_finally = returns || self.rd.chance(1, 3);
+                let fin_body = if returns {
+                    // temporaries and calls inside the finally block reuse the slots above the handler
+                    vec![
+                        Stmt::print(Expr::VecLit(vec![Expr::str("fin"), Expr::str("F1"), Expr::str("F2"), Expr::str("F3")])),
+                        Stmt::print(Expr::callv(keep, vec![])),
+                        Stmt::print(Expr::invoke(Expr::VecLit(vec![Expr::Num(1.0), Expr::Num(2.0), Expr::Num(3.0)]), "len", vec![])),
+                    ]
+                } else {
+                    vec![Stmt::print(Expr::callv(keep, vec![]))]
+                };
                 let body = vec![
                     Stmt::var(keep, Some(Expr::Lambda(Rc::new(FnDef {
                         name: RefCell::new(l2),
@@ -1609,7 +1635,7 @@ impl<'a> Gen<'a> {
                     Stmt::new(StmtKind::Try(
                         try_body,
                         Some(("ex".into(), handler)),
-                        if with_finally { Some(vec![Stmt::print(Expr::callv(keep, vec![]))]) } else { None },
+                        if with_finally { Some(fin_body) } else { None },
                     )),
                     Stmt::var("z", Some(Expr::str("Z"))),
                     Stmt::print(Expr::callv(keep, vec![])),
@@ -1810,6 +1836,9 @@ impl<'a> Gen<'a> {
     }
 
     // accessors for gen2
+    pub fn return_allowed_pub(&self) -> bool {
+        self.fns.len() > 1 && self.return_allowed()
+    }
     pub fn prof(&self) -> &Profile {
         &self.prof
     }
